@@ -37,7 +37,9 @@ class scm:
 '''
 
 
-def render_block(block: list[dict], ind: int, out: list[str], uses: dict[int, tuple[int, str]]) -> None:
+def render_block(block: list[dict], ind: int, out: list[str], uses: dict[int, tuple[int, str]], sfx: str = "") -> None:
+    # sfx: suffix of variable names (a batch of functions shares one module; `nonlocal` before the enclosing
+    # function's first assignment leaks the name into the module scope, which must not reach the other functions)
     pad = "    " * ind
     if not block:
         out.append(pad + "pass")
@@ -45,12 +47,22 @@ def render_block(block: list[dict], ind: int, out: list[str], uses: dict[int, tu
     for s in block:
         k = s["k"]
         if k == "assign":
-            out.append(f"{pad}{s['v']} = {s['id']}")
+            out.append(f"{pad}{s['v']}{sfx} = {s['id']}")
         elif k == "use":
-            out.append(f"{pad}{s['v']}")
+            out.append(f"{pad}{s['v']}{sfx}")
             uses[len(out)] = (s["id"], s["v"])
         elif k == "call":
             out.append(f"{pad}cond()")
+        elif k == "defg":
+            out.append(f"{pad}def g{s['id']}() -> None:")
+            out.append(f"{pad}    {s['v']}{sfx}")
+            uses[len(out)] = (s["id"], s["v"])
+        elif k == "defn":
+            out.append(f"{pad}def g{s['id']}() -> None:")
+            out.append(f"{pad}    nonlocal {s['v']}{sfx}")
+            out.append(f"{pad}    {s['v']}{sfx} = {s['id']}")
+        elif k == "callg":
+            out.append(f"{pad}g{s['t']}()")
         elif k == "return":
             out.append(f"{pad}return")
         elif k == "raise":
@@ -59,32 +71,32 @@ def render_block(block: list[dict], ind: int, out: list[str], uses: dict[int, tu
             out.append(pad + k)
         elif k == "if":
             out.append(f"{pad}if cond():")
-            render_block(s["body"], ind + 1, out, uses)
+            render_block(s["body"], ind + 1, out, uses, sfx)
             if s["orelse"]:
                 out.append(f"{pad}else:")
-                render_block(s["orelse"], ind + 1, out, uses)
+                render_block(s["orelse"], ind + 1, out, uses, sfx)
         elif k in ("while", "for"):
             head = "for _ in it():" if k == "for" else ("while True:" if s["true"] else "while cond():")
             out.append(pad + head)
-            render_block(s["body"], ind + 1, out, uses)
+            render_block(s["body"], ind + 1, out, uses, sfx)
             if s["orelse"]:
                 out.append(f"{pad}else:")
-                render_block(s["orelse"], ind + 1, out, uses)
+                render_block(s["orelse"], ind + 1, out, uses, sfx)
         elif k == "with":
             out.append(f"{pad}with {'scm' if s['supp'] else 'cm'}():")
-            render_block(s["body"], ind + 1, out, uses)
+            render_block(s["body"], ind + 1, out, uses, sfx)
         elif k == "try":
             out.append(f"{pad}try:")
-            render_block(s["body"], ind + 1, out, uses)
+            render_block(s["body"], ind + 1, out, uses, sfx)
             for h in s["handlers"]:
                 out.append(f"{pad}except Exception:")
-                render_block(h, ind + 1, out, uses)
+                render_block(h, ind + 1, out, uses, sfx)
             if s["orelse"]:
                 out.append(f"{pad}else:")
-                render_block(s["orelse"], ind + 1, out, uses)
+                render_block(s["orelse"], ind + 1, out, uses, sfx)
             if s["final"]:
                 out.append(f"{pad}finally:")
-                render_block(s["final"], ind + 1, out, uses)
+                render_block(s["final"], ind + 1, out, uses, sfx)
         else:
             raise core.MachineryError(f"cannot render statement {s}")
 
@@ -112,7 +124,7 @@ def observe_batch(arg: tuple[int, list[dict]]) -> list[dict]:
         lines.append("")
         lines.append(f"def f_{j}() -> None:")
         uses: dict[int, tuple[int, str]] = {}
-        render_block(p["prog"], 1, lines, uses)
+        render_block(p["prog"], 1, lines, uses, f"_{j}")
         where.append((j, uses))
     src = "\n".join(lines) + "\n"
     fails, visitor, tree = pyz.check_source(src, annotate=True, want_visitor=True)
@@ -167,7 +179,7 @@ def judge(check: core.Check, progs: list[dict], label: str) -> None:
             else:
                 check.drift({"verdict": v, **payload})
     for o in obs:
-        if any(s["k"] not in ("assign", "use", "call") for s in o["prog"]):
+        if any(s["k"] not in ("assign", "use", "call", "callg") for s in o["prog"]):
             check.nontrivial(core.canon(o["prog"]))
     for o in obs[:: max(1, len(obs) // 3)][:3]:
         check.sample({"source": label, "src": render_one(o["prog"]), "uses": o["uses"]})
@@ -175,7 +187,7 @@ def judge(check: core.Check, progs: list[dict], label: str) -> None:
 
 def _has_use(block: list[dict]) -> bool:
     for s in block:
-        if s["k"] == "use":
+        if s["k"] in ("use", "defg"):
             return True
         for key in ("body", "orelse", "final"):
             if key in s and _has_use(s[key]):
@@ -208,6 +220,11 @@ def run(check: core.Check) -> None:
     check.add_tlc("nested5", nest)
     nprogs = core.emitted_json(nest)
     judge(check, nprogs, "tlc-nested-suppress")
+    # closures: nested functions reading a variable of the enclosing function or assigning it through `nonlocal`, and
+    # calls of them (4 statements, if-nesting; replayed exhaustively in both tiers)
+    clo = core.require_ok(core.run_tlc("ScopeGenEmit", "ScopeGen.closure.cfg", timeout=3000), "ScopeGen closure")
+    check.add_tlc("closure4", clo)
+    judge(check, core.emitted_json(clo), "tlc-closures")
     if not quick:
         nest6 = core.require_ok(core.run_tlc("ScopeGen", "ScopeGen.nested6.cfg", timeout=3400), "ScopeGen nested6")
         check.add_tlc("nested6-model-only", nest6)
